@@ -3,8 +3,10 @@ package c08
 import (
 	"bytes"
 	"fmt"
+	"io"
 	"reflect"
 	"sort"
+	"strings"
 
 	"github.com/robfig/soy/ast"
 	"github.com/robfig/soy/data"
@@ -12,6 +14,7 @@ import (
 	"github.com/robfig/soy/soyhtml"
 	"github.com/robfig/soy/soyjs"
 	"github.com/robfig/soy/soymsg"
+	"github.com/robfig/soy/soymsg/pomsg"
 
 	"verif/core"
 )
@@ -159,6 +162,19 @@ func (c *Catalogue) Locale() string                    { return c.Loc }
 func (c *Catalogue) Message(id uint64) *soymsg.Message { return c.Msgs[id] }
 func (c *Catalogue) PluralCase(n int) int              { return 0 }
 
+type memOpener map[string]string
+
+func (m memOpener) Open(locale string) (io.ReadCloser, error) {
+	s, ok := m[locale]
+	if !ok {
+		return nil, nil
+	}
+	return io.NopCloser(strings.NewReader(s)), nil
+}
+
+// WalkNodes visits node and everything below it.
+func WalkNodes(n ast.Node, f func(ast.Node)) { walkNodes(n, f) }
+
 // walkNodes visits node and everything below it.
 func walkNodes(n ast.Node, f func(ast.Node)) {
 	if n == nil || (reflect.ValueOf(n).Kind() == reflect.Ptr && reflect.ValueOf(n).IsNil()) {
@@ -190,8 +206,9 @@ type Instance struct {
 	Cat      *Catalogue
 	ExprNode ast.Node
 	Data     map[string]data.Map
-	IJ       data.Map // nil = none
-	NoMsgs   bool     // render without a catalogue
+	IJ       data.Map      // nil = none
+	NoMsgs   bool          // render without a catalogue
+	Msgs     soymsg.Bundle // when set: the catalogue given to renders and JS generation instead of Cat
 }
 
 // Inputs describes the bundle and the caller's values of an instance.
@@ -204,6 +221,10 @@ type Inputs struct {
 	// map under such a name gets that same data.Map (a nested map shared by
 	// different top-level maps).
 	Shared map[string]core.V `json:"shared,omitempty"`
+	// PO / Locale: render with a REAL message bundle, pomsg.Load of these .po
+	// texts (locale -> text), bundle of Locale, instead of the identity catalogue
+	PO     map[string]string `json:"po,omitempty"`
+	Locale string            `json:"locale,omitempty"`
 }
 
 // NewInstance compiles the files and builds the caller's values afresh.
@@ -239,6 +260,21 @@ func NewInstance(in *Inputs) (*Instance, error) {
 		}
 		inst.ExprNode = n
 	}
+	if in.Locale != "" {
+		var locales []string
+		for l := range in.PO {
+			locales = append(locales, l)
+		}
+		sort.Strings(locales)
+		prov, err := pomsg.Load(memOpener(in.PO), locales)
+		if err != nil {
+			return nil, fmt.Errorf("pomsg.Load: %v", err)
+		}
+		inst.Msgs = prov.Bundle(in.Locale)
+		if inst.Msgs == nil {
+			return nil, fmt.Errorf("pomsg: no bundle for locale %s", in.Locale)
+		}
+	}
 	inst.Cat = &Catalogue{Loc: "xx", Msgs: map[uint64]*soymsg.Message{}}
 	for _, f := range comp.Registry.SoyFiles {
 		walkNodes(f, func(n ast.Node) {
@@ -270,6 +306,9 @@ func (in *Instance) CallerRoots() []Root {
 		r = append(r, Root{"data[" + k + "]", &m})
 	}
 	r = append(r, Root{"ij", &in.IJ}, Root{"msgs", in.Cat})
+	if in.Msgs != nil {
+		r = append(r, Root{"pomsgs", in.Msgs})
+	}
 	return r
 }
 
@@ -310,7 +349,9 @@ func (in *Instance) Do(o Op) (obs Obs) {
 	switch o.Op {
 	case "render":
 		r := in.Comp.Tofu.NewRenderer(o.T)
-		if !in.NoMsgs {
+		if in.Msgs != nil {
+			r.WithMessages(in.Msgs)
+		} else if !in.NoMsgs {
 			r.WithMessages(in.Cat)
 		}
 		if in.IJ != nil {
@@ -327,7 +368,11 @@ func (in *Instance) Do(o Op) (obs Obs) {
 		if file == nil {
 			return Obs{Err: true, ErrText: "harness: no such file " + o.F}
 		}
-		err = soyjs.Write(&buf, file, soyjs.Options{Messages: in.Cat})
+		var cat soymsg.Bundle = in.Cat
+		if in.Msgs != nil {
+			cat = in.Msgs
+		}
+		err = soyjs.Write(&buf, file, soyjs.Options{Messages: cat})
 	case "evalexpr":
 		var v data.Value
 		v, err = soyhtml.EvalExpr(in.ExprNode)
